@@ -104,7 +104,9 @@ def ob_fp_random(fld, cfg="A"):
                                 {"draw": hex(mdl.eval(D, model_completion=True).as_long()), "value": hex(mdl.eval(val, model_completion=True).as_long())})
         else:
             rt += 1
-            r, mdl = m.decide(I, path.pc, [], z3.UGE(masked, pv), "retry condition")
+            # a draw that is below the modulus as it stands (unused top bits already zero) must be accepted: every value below the modulus then has
+            # the same number of accepted preimages whatever mask the code applies to the unused bits (masking more or fewer of them is not a bias)
+            r, mdl = m.decide(I, path.pc, [], z3.UGE(D, pv), "retry condition")
             if r == z3.sat:
                 raise Violation(key + ":bias", "%s::random rejects a draw that is below the modulus (the distribution is not uniform)" % fld,
                                 {"draw": hex(mdl.eval(D, model_completion=True).as_long())})
@@ -335,7 +337,10 @@ def ob_random_generator(grp):
     src = ByteSource(I)
     I.external_handler = src
     ev = []
-    cof, hval = m.cofactor_obj(I, grp)
+    try:
+        cof, hval = m.cofactor_obj(I, grp)
+    except Inconclusive:
+        cof = None            # the cofactor constant is not even referenced: no multiplication by it can be recorded below
     key = "random_generator:" + grp
 
     def fail(nm, msg, extra=None):
@@ -369,7 +374,7 @@ def ob_random_generator(grp):
         inf = args[1].obj.cells.get(args[1].off + 96 * deg)
         if t is None or t[0] != "pt" or inf is None or inf[1] != 0:
             fail("base", "the point multiplied is not the curve point get_point_from_x produced")
-        if not (args[2].obj is cof and args[2].off == 0):
+        if cof is None or not (args[2].obj is cof and args[2].off == 0):
             fail("cofactor", "the scalar is not %sAffine::cofactor" % grp)
         r = ("mul", t)
         I_._check_access(args[0], 144 * deg, 1, True)
@@ -381,9 +386,16 @@ def ob_random_generator(grp):
         z = z3.Bool("zero%d" % len(ev))
         ev.append(("is_zero", args[0].obj, t, z))
         return z
+    def h_other_write(I_, name, args, site):
+        # any other way of producing the result from the sampled point (from_affine, copy, another multiplication): recorded, the result is then not
+        # "cofactor times the point" and the exit check below reports it
+        I_._check_access(args[0], 144 * deg, 1, True)
+        I_.store_cell(args[0].obj, args[0].off, 144 * deg, ("other", I_.prog.demangled.get(name, name)[:80]))
+        ev.append(("other", args[0].obj, I_.prog.demangled.get(name, name)[:80]))
     I.add_intercept(B + fld + r"::random" + ANY, h_rand, fld + "::random")
     I.add_intercept(B + m.AFF[grp] + r"::get_point_from_x" + ANY, h_gp, "get_point_from_x")
     I.add_intercept(r"void " + B + grp + r"::multiply<" + B + grp + r"Affine>\(.*BigInt<%d> const&\)" % bits, h_mul, "multiply by cofactor")
+    I.add_intercept(r"(?:void )?" + B + r"(?:Projective<" + B + fld + r">|" + grp + r")::(?:from_affine|copy|set|multiply\w*)(?:<.*>)?\(.*\)", h_other_write, "other result write")
     I.add_intercept(B + r"Projective<" + B + fld + r">::is_zero\(\) const", h_iszero, "Projective::is_zero")
     rc = retrycut.RetryCut(I, [inner], lambda: [res[0]])
     res = [None]
@@ -410,11 +422,18 @@ def ob_random_generator(grp):
             fail("x", "get_point_from_x is not given the field element just drawn")
         if not (is_conc(checked) and checked == 1):
             fail("unchecked", "get_point_from_x is called without the residue test")
-        bit = z3.Extract(0, 0, src.draws[0][3][0]) == 1
+        # which root is taken must be decided by the byte drawn (any bit of it will do), not be constant
         gb = greater if isinstance(greater, z3.BoolRef) else (z3.BoolVal(bool(greater)) if is_conc(greater) else greater != 0)
-        r, _ = m.decide(I, path.pc, [], gb == bit, "sign bit")
-        if r == z3.sat:
-            fail("sign", "the y choice is not the low bit of the byte drawn")
+        byte = src.draws[0][3][0]
+        s_ = z3.Solver()
+        s_.add(z3.substitute(gb, (byte, z3.BitVecVal(0, 8))) == z3.substitute(gb, (byte, z3.BitVecVal(255, 8))))
+        both = []
+        for want in (True, False):
+            s2 = z3.Solver()
+            s2.add(gb == want)
+            both.append(s2.check() == z3.sat)
+        if not all(both):
+            fail("sign", "the y choice does not depend on the byte drawn (always the %s root)" % ("greater" if both[0] else "smaller"))
         last = ev[-1]
         if kind == "exit":
             ex += 1
